@@ -20,6 +20,8 @@ CONSTANTS
     UrlIdx = "layer"
     ReaderChecksRef = TRUE
     ReaderChecksDigest = TRUE
+    StopAtFirstMisfit = TRUE
+    ReaderPure = TRUE
     ReaderResetsUrls = TRUE
     ReaderSkipsTarget = TRUE
 SPECIFICATION TraceSpec
